@@ -156,7 +156,7 @@ def build(x):
     nx.sub('V-ITER', r'for &sender_idx in e\.block_senders\.indexes\.iter\(\) \{', 'let mut __k: usize = 0; while __k < e.block_senders.indexes.len() { let sender_idx = e.block_senders.indexes[__k]; __k += 1;', detail='`for &x in v.iter() {` -> while loop with index', must=True)
     nx.sub('V-ITER', r'for e in self\.endpoints\.iter_mut\(\) \{', 'let mut __g: usize = 0; while __g < self.endpoints.len() { let e = &self.endpoints[__g]; __g += 1;', detail='`for e in v.iter_mut() {` -> while loop with index and a SHARED borrow (the body does not mutate e; if it did, the generated file would not compile -> undecided)', must=True)
     nx.sub('V-ITER', r'for \(_, batcher\) in self\.senders\.iter_mut\(\) \{', 'let mut __k: usize = 0; while __k < self.senders.len() { let batcher = &mut self.senders[__k].1; __k += 1;', detail='`for (_, b) in v.iter_mut() {` -> while loop', must=True)
-    nx.sub('V-ITER', r'for \(_, batcher\) in self\.senders\.drain\(\.\.\) \{', 'while self.senders.len() > 0 { let (_, batcher) = self.senders.remove(0);', detail='`for (_, b) in v.drain(..) {` -> pop-front loop', must=True)
+    nx.sub('V-ITER', r'for \(_, batcher\) in self\.senders\.drain\(\.\.\) \{', 'while self.senders.len() > 0 { let (_, batcher) = self.senders.remove(0); let ghost __b = batcher; /*@drained_batcher*/', detail='`for (_, b) in v.drain(..) {` -> pop-front loop', must=True)
     nx.bind('sent', r'let mut (\w+)(?:\s*:\s*bool)? = false;')
     nx.bind('index', r'let (\w+)(?:\s*:\s*usize)? = self\.next_strategy\.index\(')
     nx.name_result('r')
@@ -228,6 +228,7 @@ def build(x):
                     invariant self.prev == prev1,
                     decreases self.senders@.len(),
 ''')
+    nx.insert_at_loop_end(5, '\n                    assert(Batcher::ended(__b));   // #obl:route.terminate_ends_every_batcher\n                ')
     nx.insert_before('        to_return\n', '''        proof { if !(gm is Terminate) { Self::lemma_inv_transfer(old(self), self); } }
 ''')
     hdr = "impl<Out: ExchangeData, OperatorChain, IndexFn> RoutingEnd<Out, OperatorChain, IndexFn>\nwhere\n    IndexFn: KeyerFn<u64, Out>,\n    OperatorChain: Operator<Out = Out>,\n{"
